@@ -1,8 +1,7 @@
 /-
 Token-level twin of the expression printer (`fmtExp`, `Rooc/Syntax/Format.lean`) on the expression
 sub-language: the same parenthesisation decisions, as tokens.  The driver checks on every generated
-case that lexing the printed text gives exactly these tokens.  `fmtToksFixed` is the printer after
-`fixes/C11-parens.diff`.  Import-free.
+case that lexing the printed text gives exactly these tokens.  Import-free.
 -/
 import Rooc.Syntax.Format
 import Rooc.Syntax.Doc
@@ -15,19 +14,6 @@ def binKwTok : BinOp → Tok
 def unKwTok : UnOp → Tok
   | .neg => .minus | .not => .word "not"
 
-/-- does `to_string_with_precedence` put parentheses around operand `e` of an operator of precedence `prev`? -/
-def printsParen (prev : Nat) : PExp → Bool
-  | .bin op _ _ => decide (Gen.binPrec op < prev)
-  | _ => false
-
-/-- the repaired rule: also a right operand of equal precedence under a left-associative parent and a
-right-associative left operand of equal precedence -/
-def printsParenFixed (parent : BinOp) (isRhs : Bool) : PExp → Bool
-  | .bin op _ _ =>
-    decide (Gen.binPrec op < Gen.binPrec parent) ||
-      (decide (Gen.binPrec op = Gen.binPrec parent) && (if isRhs then Gen.binLeftAssoc parent else !(Gen.binLeftAssoc op)))
-  | _ => false
-
 mutual
 def fmtToks : PExp → List Tok
   | .int v => [.int (String.ofList (natDigits v))]
@@ -37,31 +23,13 @@ def fmtToks : PExp → List Tok
   | .call n args => .word n :: .lpar :: fmtToksArgs args ++ [.rpar]
   | .un op e => unKwTok op :: (if e.isLeaf then fmtToks e else parenToks (fmtToks e))
   | .bin op l r =>
-    (if printsParen (Gen.binPrec op) l then parenToks (fmtToks l) else fmtToks l)
-      ++ binKwTok op :: (if printsParen (Gen.binPrec op) r then parenToks (fmtToks r) else fmtToks r)
+    (if printsParen op false l then parenToks (fmtToks l) else fmtToks l)
+      ++ binKwTok op :: (if printsParen op true r then parenToks (fmtToks r) else fmtToks r)
   | _ => []
 def fmtToksArgs : List PExp → List Tok
   | [] => []
   | [a] => fmtToks a
   | a :: b :: rest => fmtToks a ++ .comma :: fmtToksArgs (b :: rest)
-end
-
-mutual
-def fmtToksFixed : PExp → List Tok
-  | .int v => [.int (String.ofList (natDigits v))]
-  | .num t => [.float t]
-  | .bool b => [.word (if b then "true" else "false")]
-  | .var n => [.word n]
-  | .call n args => .word n :: .lpar :: fmtToksFixedArgs args ++ [.rpar]
-  | .un op e => unKwTok op :: (if e.isLeaf then fmtToksFixed e else parenToks (fmtToksFixed e))
-  | .bin op l r =>
-    (if printsParenFixed op false l then parenToks (fmtToksFixed l) else fmtToksFixed l)
-      ++ binKwTok op :: (if printsParenFixed op true r then parenToks (fmtToksFixed r) else fmtToksFixed r)
-  | _ => []
-def fmtToksFixedArgs : List PExp → List Tok
-  | [] => []
-  | [a] => fmtToksFixed a
-  | a :: b :: rest => fmtToksFixed a ++ .comma :: fmtToksFixedArgs (b :: rest)
 end
 
 /-- the expression sub-language as the printer sees it (no escaped names, no range sugar, float texts
@@ -78,7 +46,7 @@ def coreExp : PExp → Bool
   | .int _ => true
   | .num t => isFloatText t
   | .bool _ => true
-  | .var n => !(n.toList.contains '_')
+  | .var n => !(needsEscape n)
   | .call n args => n != "range" && n.toList.all isLetter && coreList args
   | .un _ e => coreExp e
   | .bin _ l r => coreExp l && coreExp r
@@ -86,21 +54,6 @@ def coreExp : PExp → Bool
 def coreList : List PExp → Bool
   | [] => true
   | e :: es => coreExp e && coreList es
-end
-
-/-! hypothesis of `parse_format_partial`: wherever the grammar NEEDS parentheses around an operand, the
-printer emits them (fails exactly at an operand of EQUAL precedence that the parser would regroup) -/
-mutual
-def roundTrips : PExp → Bool
-  | .bin p l r =>
-    (printsParen (Gen.binPrec p) l || !(Doc.needParenLeft p l)) && (printsParen (Gen.binPrec p) r || !(Doc.needParenRight p r))
-      && roundTrips l && roundTrips r
-  | .un _ e => roundTrips e
-  | .call _ args => roundTripsList args
-  | _ => true
-def roundTripsList : List PExp → Bool
-  | [] => true
-  | e :: es => roundTrips e && roundTripsList es
 end
 
 end Rooc.Syntax
